@@ -1582,6 +1582,8 @@ impl LsmTree {
         let mut version = self.take_snapshot();
         while version.version.should_stall_ingest() {
             INGEST_STALL.click();
+            #[cfg(rescrv_blue_verif)]
+            crate::verif::sched(crate::verif::SchedEvent::IngestStalled);
             mutex = self.stall.wait(mutex).unwrap();
             let mut version2 = self.take_snapshot();
             std::mem::swap(&mut version, &mut version2);
